@@ -1,8 +1,296 @@
-//! C10 runner (stub). Replace the body; keep the signature `pub fn run(args: &[String])`.
-#[allow(unused_imports)]
-use crate::common::{catch, each_line, opt_i64};
+//! C10 runner: layout and comments never change the parse.
+//! Input lines: `<mode> <hex of UTF-8 source>`; modes
+//!   lex      -> `L T k a b;...|E code a b x y;...`   token classes / error classes with byte spans
+//!               (class codes as in coq/Lex/Chars.v; `P <msg>` if the lexer panicked)
+//!   ast      -> `OK <hash> <len>` span-erased Debug of the AST from the real parser, hashed,
+//!               `ERR lex <n>` / `ERR parse <n>` when the source is rejected, `PANIC <msg>`
+//!   astfull  -> `OK <span-erased Debug text>` (for replays)
+use crate::common::{catch, each_line};
+use incan_syntax::lexer::{self, TokenKind};
+use incan_syntax::parser;
+use incan_core::lang::punctuation::PunctuationId;
+use std::collections::hash_map::DefaultHasher;
+use std::hash::{Hash, Hasher};
+
+pub fn unhex(h: &str) -> Option<String> {
+    let b = h.as_bytes();
+    if b.len() % 2 != 0 {
+        return None;
+    }
+    let mut out = Vec::with_capacity(b.len() / 2);
+    for i in (0..b.len()).step_by(2) {
+        let v = u8::from_str_radix(std::str::from_utf8(&b[i..i + 2]).ok()?, 16).ok()?;
+        out.push(v);
+    }
+    String::from_utf8(out).ok()
+}
+
+pub fn kind_code(k: &TokenKind) -> u32 {
+    match k {
+        TokenKind::Newline => 1,
+        TokenKind::Indent => 2,
+        TokenKind::Dedent => 3,
+        TokenKind::Eof => 4,
+        TokenKind::Punctuation(PunctuationId::LParen)
+        | TokenKind::Punctuation(PunctuationId::LBracket)
+        | TokenKind::Punctuation(PunctuationId::LBrace) => 5,
+        TokenKind::Punctuation(PunctuationId::RParen)
+        | TokenKind::Punctuation(PunctuationId::RBracket)
+        | TokenKind::Punctuation(PunctuationId::RBrace) => 6,
+        TokenKind::String(_) => 7,
+        TokenKind::Keyword(_) | TokenKind::Ident(_) => 8,
+        TokenKind::Operator(_) | TokenKind::Punctuation(_) | TokenKind::Ellipsis => 9,
+        TokenKind::Bytes(_) => 17,
+        TokenKind::FString(_) => 18,
+        TokenKind::Int(_) => 30,
+        TokenKind::Float(_) => 31,
+    }
+}
+
+/// (code, x, y) for a lexer error message; code 99 = a message this classifier does not know.
+pub fn err_code(msg: &str) -> (u32, u64, u64) {
+    if msg.starts_with("Unexpected character") {
+        (1, 0, 0)
+    } else if msg == "Unmatched closing bracket" {
+        (2, 0, 0)
+    } else if let Some(rest) = msg.strip_prefix("Inconsistent indentation: expected ") {
+        // "expected {} spaces, got {}"
+        let mut it = rest.split(" spaces, got ");
+        let a = it.next().and_then(|s| s.parse().ok()).unwrap_or(u64::MAX);
+        let b = it.next().and_then(|s| s.parse().ok()).unwrap_or(u64::MAX);
+        (3, a, b)
+    } else if msg == "Unterminated string" {
+        (4, 0, 0)
+    } else if msg == "Unterminated string (newline in single-quoted string)" {
+        (5, 0, 0)
+    } else if msg == "Unterminated escape sequence" {
+        (6, 0, 0)
+    } else if msg == "Unterminated byte string" {
+        (7, 0, 0)
+    } else if msg == "Unterminated byte string (newline in string)" {
+        (8, 0, 0)
+    } else if msg.starts_with("Invalid hex escape") {
+        (9, 0, 0)
+    } else if msg.starts_with("Non-ASCII character in byte string") {
+        (10, 0, 0)
+    } else if msg == "Unterminated f-string" {
+        (11, 0, 0)
+    } else if msg == "Unmatched '}' in f-string" {
+        (12, 0, 0)
+    } else if msg == "Unterminated escape in f-string" {
+        (13, 0, 0)
+    } else if msg.starts_with("Invalid float literal") {
+        (14, 0, 0)
+    } else if msg.starts_with("Invalid integer literal") {
+        (15, 0, 0)
+    } else {
+        (99, 0, 0)
+    }
+}
+
+pub fn lex_line(src: &str) -> String {
+    match catch(|| lexer::lex(src)) {
+        Err(p) => format!("P {}", p),
+        Ok(Ok(toks)) => {
+            let t: Vec<String> = toks
+                .iter()
+                .map(|t| format!("T {} {} {}", kind_code(&t.kind), t.span.start, t.span.end))
+                .collect();
+            format!("L {}|", t.join(";"))
+        }
+        Ok(Err(errs)) => {
+            let e: Vec<String> = errs
+                .iter()
+                .map(|e| {
+                    let (c, x, y) = err_code(&e.message);
+                    format!("E {} {} {} {} {}", c, e.span.start, e.span.end, x, y)
+                })
+                .collect();
+            format!("L |{}", e.join(";"))
+        }
+    }
+}
+
+/// Remove every `Span { start: N, end: M }` from a Debug rendering.
+pub fn erase_spans(s: &str) -> String {
+    let pat = "Span { start: ";
+    let mut out = String::with_capacity(s.len());
+    let mut rest = s;
+    while let Some(i) = rest.find(pat) {
+        out.push_str(&rest[..i]);
+        let after = &rest[i + pat.len()..];
+        // digits ", end: " digits " }"
+        let d1 = after.bytes().take_while(|b| b.is_ascii_digit()).count();
+        let a2 = &after[d1..];
+        if d1 > 0 && a2.starts_with(", end: ") {
+            let a3 = &a2[7..];
+            let d2 = a3.bytes().take_while(|b| b.is_ascii_digit()).count();
+            let a4 = &a3[d2..];
+            if d2 > 0 && a4.starts_with(" }") {
+                out.push('_');
+                rest = &a4[2..];
+                continue;
+            }
+        }
+        out.push_str(pat);
+        rest = after;
+    }
+    out.push_str(rest);
+    out
+}
+
+pub fn ast_text(src: &str) -> Result<String, String> {
+    let toks = match lexer::lex(src) {
+        Ok(t) => t,
+        Err(es) => return Err(format!("ERR lex {}", es.len())),
+    };
+    match parser::parse(&toks) {
+        Ok(p) => Ok(erase_spans(&format!("{:?}", p))),
+        Err(es) => Err(format!("ERR parse {}", es.len())),
+    }
+}
+
+/// Token classes of the real lexer, or the error classes when it rejects; None if it panicked.
+fn kinds(src: &str) -> Option<Result<Vec<u32>, Vec<u32>>> {
+    match catch(|| lexer::lex(src)) {
+        Err(_) => None,
+        Ok(Ok(t)) => Some(Ok(t.iter().map(|t| kind_code(&t.kind)).collect())),
+        Ok(Err(e)) => Some(Err(e.iter().map(|e| err_code(&e.message).0).collect())),
+    }
+}
+
+/// Drop a Newline that stands immediately before the closing `Dedent* Eof` (the relation ~ of C10).
+fn norm(mut k: Vec<u32>) -> Vec<u32> {
+    let mut i = k.len();
+    if i > 0 && k[i - 1] == 4 {
+        i -= 1;
+        while i > 0 && k[i - 1] == 3 {
+            i -= 1;
+        }
+        if i > 0 && k[i - 1] == 1 {
+            k.remove(i - 1);
+        }
+    }
+    k
+}
+
+fn map_lines(s: &str, f: impl Fn(&str) -> String) -> String {
+    let parts: Vec<String> = s.split('\n').map(|l| f(l)).collect();
+    parts.join("\n")
+}
+
+/// The eight layout edits of DESIGN section 13 applied to a string without string literals.
+fn exh_variants(s: &str) -> Vec<(&'static str, String)> {
+    let mut v = Vec::new();
+    v.push(("final-newline", format!("{}\n", s)));
+    v.push(("crlf", s.replace('\n', "\r\n")));
+    v.push(("trailing-blanks", map_lines(s, |l| format!("{} \t", l))));
+    v.push(("eol-comment", map_lines(s, |l| format!("{}# c(", l))));
+    v.push(("blank-lines", s.replace('\n', "\n \t\r\n\n")));
+    v.push(("comment-lines", s.replace('\n', "\n  # c)\n")));
+    v.push((
+        "double-indent",
+        map_lines(s, |l| {
+            let n = l.bytes().take_while(|b| *b == b' ' || *b == b'\t').count();
+            format!("{}{}", &l[..n], l)
+        }),
+    ));
+    // newline + blanks after every real '(' (found through the real token spans)
+    if let Ok(Ok(toks)) = catch(|| lexer::lex(s)) {
+        let mut out = String::new();
+        let mut last = 0usize;
+        for t in &toks {
+            if kind_code(&t.kind) == 5 {
+                out.push_str(&s[last..t.span.end]);
+                out.push_str("\n \t ");
+                last = t.span.end;
+            }
+        }
+        out.push_str(&s[last..]);
+        v.push(("newline-after-open", out));
+    }
+    v
+}
+
+/// Enumerate every string of length <= maxlen over `a SP TAB LF CR # ( ) :` and compare the token
+/// classes of every layout variant with those of the original (modulo the optional final Newline).
+fn exhaustive(maxlen: usize) -> String {
+    const ALPHA: [char; 9] = ['a', ' ', '\t', '\n', '\r', '#', '(', ')', ':'];
+    let (mut n, mut lexed, mut variants) = (0u64, 0u64, 0u64);
+    let mut bad: Vec<String> = Vec::new();
+    let mut idx: Vec<usize> = Vec::new();
+    loop {
+        let s: String = idx.iter().map(|i| ALPHA[*i]).collect();
+        n += 1;
+        match kinds(&s) {
+            None => bad.push(format!("panic {:?}", s)),
+            Some(base) => {
+                if base.is_ok() {
+                    lexed += 1;
+                }
+                let nb = base.clone().map(norm);
+                for (name, v) in exh_variants(&s) {
+                    variants += 1;
+                    let got = kinds(&v).map(|r| r.map(norm));
+                    if got != Some(nb.clone()) && bad.len() < 20 {
+                        bad.push(format!("{} {:?} -> {:?}: {:?} vs {:?}", name, s, v, base, got));
+                    }
+                }
+            }
+        }
+        // next string
+        let mut i = idx.len();
+        loop {
+            if i == 0 {
+                idx.insert(0, 0);
+                for j in idx.iter_mut() {
+                    *j = 0;
+                }
+                break;
+            }
+            i -= 1;
+            if idx[i] + 1 < ALPHA.len() {
+                idx[i] += 1;
+                for j in idx[i + 1..].iter_mut() {
+                    *j = 0;
+                }
+                break;
+            }
+        }
+        if idx.len() > maxlen {
+            break;
+        }
+    }
+    format!("EXH strings={} lexed={} variants={} violations={} {}", n, lexed, variants, bad.len(), bad.join(" ;; "))
+}
 
 pub fn run(_args: &[String]) {
-    eprintln!("c10: runner not implemented");
-    std::process::exit(2);
+    each_line(|line| {
+        let mut it = line.splitn(2, ' ');
+        let mode = it.next().unwrap_or("");
+        if mode == "exh" {
+            let n: usize = it.next().and_then(|s| s.trim().parse().ok()).unwrap_or(4);
+            return exhaustive(n);
+        }
+        let Some(src) = unhex(it.next().unwrap_or("")) else {
+            return "BADINPUT".to_string();
+        };
+        match mode {
+            "lex" => lex_line(&src),
+            "ast" | "astfull" => match catch(|| ast_text(&src)) {
+                Err(p) => format!("PANIC {}", p),
+                Ok(Err(e)) => e,
+                Ok(Ok(text)) => {
+                    if mode == "astfull" {
+                        format!("OK {}", text)
+                    } else {
+                        let mut h = DefaultHasher::new();
+                        text.hash(&mut h);
+                        format!("OK {:016x} {}", h.finish(), text.len())
+                    }
+                }
+            },
+            _ => "BADMODE".to_string(),
+        }
+    });
 }
